@@ -539,6 +539,21 @@ func copyRatio(F *ref.Fp, ent [][]*big.Int, perm []int64, beta, gamma *big.Int, 
 	return z
 }
 
+// drawColumns: the number of polynomials of a ratio builder, 1..10 (classical PLONK has 3, wide arithmetisations more).
+func drawColumns(t *rapid.T) int {
+	if rapid.IntRange(0, 2).Draw(t, "wide") == 0 {
+		return rapid.IntRange(5, 10).Draw(t, "m")
+	}
+	return rapid.IntRange(1, 4).Draw(t, "m")
+}
+
+func columnsClass(m int) string {
+	if m >= 7 {
+		return "polys:7+"
+	}
+	return fmt.Sprintf("polys:%d", m)
+}
+
 // ratioInputs draws m polynomials given by their values on the domain, each in a drawn form.
 func ratioInputs(t *rapid.T, c *cx, vals [][]*big.Int, d *dom, s *big.Int, label string) ([]*model, []inst.IopPoly, []string) {
 	var ms []*model
@@ -582,9 +597,9 @@ func propRatioShuffled(t *rapid.T, c *cx) {
 	n := 1 << rapid.IntRange(0, rep.Scale(5, 7)).Draw(t, "lg")
 	s := drawCosetShift(t, c, n)
 	d := c.dom(n, s)
-	m := rapid.IntRange(1, 3).Draw(t, "m")
+	m := drawColumns(t)
 	mode := rapid.SampledFrom([]string{"random", "shuffled", "shuffled", "error"}).Draw(t, "mode")
-	classes := []string{"mode:" + mode, fmt.Sprintf("polys:%d", m), fmt.Sprintf("n:%d", n)}
+	classes := []string{"mode:" + mode, columnsClass(m), fmt.Sprintf("n:%d", n)}
 	num := make([][]*big.Int, m)
 	den := make([][]*big.Int, m)
 	for i := range num {
@@ -711,7 +726,7 @@ func propRatioCopy(t *rapid.T, c *cx) {
 	n := 1 << rapid.IntRange(0, rep.Scale(5, 7)).Draw(t, "lg")
 	s := drawCosetShift(t, c, n)
 	d := c.dom(n, s)
-	m := rapid.IntRange(1, 4).Draw(t, "m")
+	m := drawColumns(t)
 	u := d.ref.S
 	// the identity support u^k·ω^j needs pairwise disjoint cosets
 	id := make([]*big.Int, m*n)
@@ -757,7 +772,7 @@ func propRatioCopy(t *rapid.T, c *cx) {
 	}
 	beta, gamma := drawElem(t, c, "beta"), drawElem(t, c, "gamma")
 	form := rapid.SampledFrom(allForms).Draw(t, "resultform")
-	classes := []string{"mode:" + mode, fmt.Sprintf("polys:%d", m), fmt.Sprintf("n:%d", n), "result:" + form.String()}
+	classes := []string{"mode:" + mode, columnsClass(m), fmt.Sprintf("n:%d", n), "result:" + form.String()}
 	var dl inst.IopDomain
 	if s != nil || rapid.Bool().Draw(t, "passdomain") {
 		dl = d.lib
